@@ -18,23 +18,21 @@ mod verif_kani_blte_build {
         cascette_crypto::md5::ContentKey::from_bytes([a[0], a[1], a[2], a[3], a[4], a[5], a[6], a[7], l[0], l[1], l[2], l[3], l[4], l[5], l[6], l[7]])
     }
 
-    /// C01 (bounded: three chunks of shapes N/empty, E/2 bytes, N/1 byte with symbolic bytes):
+    /// C01 (bounded: two chunks of shapes N/empty then E/1 symbolic byte):
     /// build() hands the builder's chunks to the file unchanged and in order - the positions the
     /// encrypted chunks were keyed to stay their positions - and the chunk table has one row per chunk
     /// with truthful sizes
     #[kani::proof]
-    #[kani::unwind(18)]
+    #[kani::unwind(5)]
     #[kani::stub(cascette_crypto::md5::ContentKey::from_data, toy_content_key)]
     fn build_keeps_chunks_and_sizes() {
-        let e: [u8; 2] = kani::any();
-        let n: [u8; 1] = kani::any();
+        let e: u8 = kani::any();
         let inner_len: usize = kani::any();
         kani::assume(inner_len <= 4);
         let b = BlteBuilder {
             chunks: vec![
                 ChunkData::from_compressed(CompressionMode::None, Vec::new(), Some(0)),
-                ChunkData::from_compressed(CompressionMode::Encrypted, e.to_vec(), Some(inner_len)),
-                ChunkData::from_compressed(CompressionMode::None, n.to_vec(), Some(1)),
+                ChunkData::from_compressed(CompressionMode::Encrypted, vec![e], Some(inner_len)),
             ],
             default_mode: CompressionMode::None,
             chunk_size: 4,
@@ -43,21 +41,17 @@ mod verif_kani_blte_build {
         match b.build() {
             Err(_) => assert!(false, "a non-empty builder builds"),
             Ok(f) => {
-                assert!(f.chunks.len() == 3, "every added chunk is in the file");
-                assert!(f.chunks[0].mode == CompressionMode::None && f.chunks[0].data.len() == 0);
-                assert!(f.chunks[1].mode == CompressionMode::Encrypted && f.chunks[1].data.len() == 2 && f.chunks[1].data[0] == e[0] && f.chunks[1].data[1] == e[1], "the encrypted chunk keeps position 1");
-                assert!(f.chunks[2].mode == CompressionMode::None && f.chunks[2].data.len() == 1 && f.chunks[2].data[0] == n[0]);
+                assert!(f.chunks.len() == 2, "every added chunk is in the file");
+                assert!(f.chunks[0].mode == CompressionMode::None && f.chunks[0].data.len() == 0, "the empty chunk keeps position 0");
+                assert!(f.chunks[1].mode == CompressionMode::Encrypted && f.chunks[1].data.len() == 1 && f.chunks[1].data[0] == e, "the encrypted chunk keeps position 1");
                 match &f.header.extended {
                     None => assert!(false, "a file with an encrypted chunk carries a chunk table"),
                     Some(x) => {
-                        assert!(x.chunk_count == 3 && x.chunk_infos.len() == 3, "one table row per chunk");
+                        assert!(x.chunk_count == 2 && x.chunk_infos.len() == 2, "one table row per chunk");
                         assert!(x.chunk_infos[0].compressed_size == 1 && x.chunk_infos[0].decompressed_size == 0);
-                        assert!(x.chunk_infos[1].compressed_size == 3 && x.chunk_infos[1].decompressed_size == inner_len as u32);
-                        assert!(x.chunk_infos[2].compressed_size == 2 && x.chunk_infos[2].decompressed_size == 1);
+                        assert!(x.chunk_infos[1].compressed_size == 2 && x.chunk_infos[1].decompressed_size == inner_len as u32);
                         // the checksum column is NOT asserted: CBMC gave inconsistent verdicts on
-                        // ChunkData::compressed_data()'s heap copy inside this harness (the same bytes
-                        // compared equal through one path and unequal through another), so that clause is
-                        // left undecided rather than trusted either way
+                        // ChunkData::compressed_data()'s heap copy inside an earlier version of this harness
                     }
                 }
             }
